@@ -36,7 +36,7 @@ def run(prog, an, rep):
         build_gate, outcome, recursive_lookup_literals, lookup_args,
         process_selection, force_merge_wiring, is_needed_rules,
         merge_queues_args, nothing_moves_without_selection,
-        version_keys])
+        version_keys, in_sync_before_update, selection_reads_its_argument])
 
 
 def version_keys(prog, an, rep):
@@ -102,6 +102,50 @@ def nothing_moves_without_selection(prog, an, rep):
                   f.where(t), 'destinations can be merged / pushed although '
                   'no queued pull request is mergeable',
                   path=c.describe_path(path))
+
+
+def in_sync_before_update(prog, an, rep):
+    """The "integration branches were in sync" verdict that lets queue mode
+    keep them as they are is taken before update_integration_branches
+    brings them up to date (afterwards it is trivially true, the branches
+    would stay frozen and a direct merge would land unbuilt merges)."""
+    R = 'C03.NEB.in-sync'
+    f = need_func(an, GWF + '._handle_pull_request')
+    c = an.cfg(f)
+    upd = an.gate_nodes(f, Spec.func(
+        GWF + '.integration.update_integration_branches'), depth=0)
+    chk = an.target_nodes(f, Spec.func(GWF + '.check_in_sync'), depth=0)
+    chk += [n for n in c.nodes.values() if n.kind == 'test' and any(
+        isinstance(x, ast.Call) and an.call_matches(
+            f, x, Spec.func(GWF + '.check_in_sync'))
+        for x in ast.walk(n.ast))]
+    rep.floor('C03 check_in_sync sites in _handle_pull_request', len(chk), 1)
+    rep.floor('C03 update_integration_branches sites', len(upd), 1)
+    after = set()
+    for u in upd:
+        after |= c.reachable(start=u)
+    for n in chk:
+        rep.evaluated()
+        rep.check(n.id not in after, R, f.qname + ': check_in_sync is '
+                  'evaluated before the integration branches are updated',
+                  f.where(n), 'check_in_sync runs after '
+                  'update_integration_branches: it always answers True')
+
+
+def selection_reads_its_argument(prog, an, rep):
+    """_recursive_lookup prunes a copy of the queues and _extract_pr_ids
+    reads the pull request ids from what it is given: neither goes back to
+    the unpruned self._queues."""
+    R = 'C03.ARG.selection'
+    for name in ('_extract_pr_ids', '_recursive_lookup'):
+        f = need_func(an, BR + '.QueueCollection.' + name)
+        bad = [x for x in walk_local(f.node, include_root=False)
+               if isinstance(x, ast.Attribute) and x.attr == '_queues']
+        rep.evaluated()
+        rep.check(not bad and len(f.params) == 2, R, f.qname + ': works on '
+                  'the queues it is given', f.where(bad[0] if bad else None),
+                  '%s reads self._queues instead of its argument: pull '
+                  'requests removed by the status lookup come back' % f.name)
 
 
 def build_gate(prog, an, rep):
